@@ -25,23 +25,24 @@ var (
 
 // GenOpts selects which features a profile exercises.
 type GenOpts struct {
-	Sinks       bool // zero-size symbols, MSINK, browse menus
-	OutputSize  bool // cfg.OutputSize > 0 possible
-	CacheSize   bool
-	Flags       bool // CATCH/CROAK + FlagSet/FlagReset
-	Errors      bool // scripted function errors (LOADFAIL)
-	Langs       bool // language switches and translations
-	Sloppy      bool // deliberately questionable code: MAP of unloaded symbols, RELOAD before LOAD, unmapped placeholders
-	Big         bool // occasionally very long contents (>= 64 KiB)
-	CustomRoot  bool
-	Separators  bool
-	ResetEmpty  bool
-	MaxNodes    int
-	NoEndNodes  bool // every node ends in a catch-all so sessions do not end by themselves
-	MultiHalt   bool // second HALT sections
-	ReservedFl  bool // FlagSet/FlagReset lists include reserved indices 0..7
-	EchoInput   bool
-	InternalSig bool // CATCH/CROAK on flags 0..5 (only where nothing is compared to a model)
+	Sinks        bool // zero-size symbols, MSINK, browse menus
+	OutputSize   bool // cfg.OutputSize > 0 possible
+	CacheSize    bool
+	Flags        bool // CATCH/CROAK + FlagSet/FlagReset
+	Errors       bool // scripted function errors (LOADFAIL)
+	Langs        bool // language switches and translations
+	Sloppy       bool // deliberately questionable code: MAP of unloaded symbols, RELOAD before LOAD, unmapped placeholders
+	Big          bool // occasionally very long contents (>= 64 KiB)
+	CustomRoot   bool
+	Separators   bool
+	ResetEmpty   bool
+	MaxNodes     int
+	NoEndNodes   bool // every node ends in a catch-all so sessions do not end by themselves
+	MultiHalt    bool // second HALT sections
+	ReservedFl   bool // FlagSet/FlagReset lists include reserved indices 0..7
+	EchoInput    bool
+	InternalSig  bool // CATCH/CROAK on flags 0..5 (only where nothing is compared to a model)
+	FewSelectors bool // selector alphabet of three, so duplicate selectors are common
 }
 
 var fullOpts = GenOpts{Sinks: true, OutputSize: true, CacheSize: true, Flags: true, Errors: true, Langs: true, Sloppy: true,
@@ -413,6 +414,9 @@ func (g *appGen) genPost(node string, loaded map[string]bool, hasSink, browse bo
 	}
 	for i := 0; i < n; i++ {
 		sel := pickS(t, poolSels, "incmpsel")
+		if g.o.FewSelectors {
+			sel = poolSels[g.draw(3, "incmpselfew")]
+		}
 		if g.chance(12, "wild") {
 			sel = "*"
 		}
